@@ -157,6 +157,12 @@ pub fn run(ctx: &mut Ctx) {
       let mut core = support::core_from_image(image);
       // give every RAM recognisable contents
       let mp = &mut core.memory as *mut MemoryAreas;
+      // not the power-on banking state: a ROM bank whose bytes differ from bank 1's at
+      // every offset, a RAM bank other than 0 (MBC1 mode 1), so that a transfer
+      // that bypassed the memory map would copy visibly different bytes
+      memory_write_byte(mp, 0x2000, [2u8, 3, 6, 7][(page % 4) as usize]);
+      memory_write_byte(mp, 0x6000, 1);
+      memory_write_byte(mp, 0x4000, 1 + page % 3);
       for a in (0x8000u32..0xe000).chain(0xff80..0xffff) {
         memory_write_byte(mp, a as u16, (a as u8).wrapping_mul(3) ^ ((a >> 8) as u8));
       }
